@@ -96,7 +96,8 @@ CHECKS.update({
              "a workspace with plain packages, in-package tests and external tests is analysed by the four binaries under equivalent "
              "configurations (defaults, enable-all, by name, by tag, parameters, -go, tests off) and the normalised "
              "(file, line, col, checker, message) multisets must be equal, each line once; quick fixes of the analyzer are compared "
-             "with the linter's.",
+             "with the linter's."
+             " AnalyzerWork.tla models the work loop of one analyzer pass per build variant (Faithful, NothingForeign, Complete; the what-if 'diagnostics remembered per syntax tree' is refuted iff a verdict depends on the variant); the loop of every real pass over corpus/variants is recorded through the linter and analyzer hooks and validated by TraceAnalyzerWork.tla, with Verdict = what newly constructed checkers say about that variant.",
         design_ref="DESIGN.md section 6 C08",
         note="Equivalent configuration = Selection!Translatable; workspaces are built from example files. One configuration uses user ruleguard rules whose filters depend on the package of the analysed file; declaration-less files with reportable comments are in the workspace.",
         technique="TLA+ registration model + differential replay on the four real binaries",
@@ -124,7 +125,8 @@ CHECKS.update({
              "files + multi-trigger adversarial files) repeatedly - one long-lived set in a different file order per pass, newly "
              "constructed sets with overlapping user rule files - and TraceLifecycle.tla validates the recorded execution with the first "
              "observation of every (checker, file) as reference; the real binary is run repeatedly at several -concurrency values "
-             "(byte-identical output) and parallel analyzer passes are repeated in one process.",
+             "(byte-identical output) and parallel analyzer passes are repeated in one process."
+             " Packages that do not type-check (corpus/illtyped: several imports under one local name, i.e. several keys per table entry) are analysed by repeated processes of the real command; the output must be byte-identical.",
         design_ref="DESIGN.md section 6 C02",
         note="Probabilistic for map-order dependence: k >= 2 keys and R repetitions expose it with probability >= 1 - 2^-(R-1).",
         technique="TLA+ self-composition + repeated-execution trace validation against the first run",
@@ -171,7 +173,8 @@ CHECKS.update({
              "function. The same transformation schemas are applied to the maintainers' example files, cut into chunks that carry "
              "their `/*! expectation */` lines: reverse, rotate, swaps, move-to-front/back, shuffle, padding with blank lines / var / "
              "func / type / body-less func / comment before chunks, appended unrelated code, unrelated code re-using the file's type "
-             "names; every variant is re-type-checked and analysed by the real checker and must match its expectations exactly.",
+             "names; every variant is re-type-checked and analysed by the real checker and must match its expectations exactly."
+             " Look-ahead attribution (marked chunks, AttributePerDecl; what-if: a mark is attributed to the last function seen) is part of the model; the padding kinds include a package-level function literal with label/goto/defer/loop/switch and an unrelated function with a goto.",
         design_ref="DESIGN.md section 6 C13",
         note="Only plain functions move; 2 example directories have no registered checker (reported as uncovered). Guest schemas move the plain functions of the sibling example file (positive <-> negative, identical import table) between the target's declarations.",
         technique="TLC over abstract files and transformations + metamorphic replay on the curated examples",
@@ -195,7 +198,8 @@ CHECKS.update({
              "tree (rule groups with their //doc lines, the live registry, the doc sub-command, docs/overview.md, digests); TLC "
              "evaluates them. The two build transitions are replayed on the repository's own generators in a scratch copy: "
              "precompile.go exactly as go:generate runs it, and cmd/makedocs; outputs are compared byte for byte with "
-             "checkers/rulesdata/rulesdata.go and docs/overview.md.",
+             "checkers/rulesdata/rulesdata.go and docs/overview.md."
+             " CheckerRunsItsGroup: all rule-group checkers are constructed by eight goroutines at once (what parallel analysis passes do) and every instance, run over the example files of all groups, must behave exactly like the instance of its name constructed alone; the behaviours are facts evaluated by TLC.",
         design_ref="DESIGN.md section 6 C17",
         note="The TLA+ part only states the equalities; the decision is the regeneration diff. Generators are trusted.",
         technique="regeneration diff (translation validation) with TLA+-stated invariants over extracted facts",
@@ -264,7 +268,8 @@ CHECKS.update({
              "executed on every dynamic value: the model's dispatch must equal the Go runtime's (else undecided) and a flagged case "
              "must never be taken. The other constant-outcome claims (sloppyLen always true/false, badCond always false, offBy1 always "
              "panics, nilValReturn always nil, dupSubExpr/dupArg same value) are checked by 39 executable templates with pure, impure, "
-             "NaN, shadowed and lazily-initialised operands: the claim parsed from the real diagnostic must hold in every execution.",
+             "NaN, shadowed and lazily-initialised operands: the claim parsed from the real diagnostic must hold in every execution."
+             " AnalyzerWork.tla / TraceAnalyzerWork.tla (see C08) validate recorded analyzer passes over corpus/variants: a caseOrder claim that is true only with the method sets of the test variant must not be delivered for the production package.",
         design_ref="DESIGN.md section 6 C12",
         note="Universe bounded (4 concrete types, 3 interfaces, nil; <= 3 cases); value-switch claims of dupBranchBody/dupCase are "
              "covered only through the templates.",
@@ -288,7 +293,8 @@ CHECKS.update({
              "SubexpNames, FindStringSubmatchIndex on all short subjects over the alphabet of the pattern and of its rewrite, on a "
              "shortest match exported by the model and on its one-symbol variations) and validates the module's matcher on 377 000 "
              "exported Find results (a disagreement makes the run undecided). The model predicts the real output on every enumerated "
-             "pattern (drift is reported, never a verdict); violations are classified by context tag and rewrite actions.",
+             "pattern (drift is reported, never a verdict); violations are classified by context tag and rewrite actions."
+             " A POSIX-lookalike family outside the model's grammar (classes containing a literal [ and escaped punctuation, e.g. [[\\:alpha\\:]]) is judged by regexp alone.",
         design_ref="DESIGN.md section 6 C11, Appendix A.13",
         note="Bounded ASTs over a 17-symbol alphabet; flags, anchors, Unicode classes, \\Q..\\E and repeats of nullable operands are "
              "not enumerated. Two known findings (prefix factoring asserted by the repository's tests; {1} after an octal escape).",
